@@ -23,6 +23,7 @@ mod ops_misc;
 mod ops_vec;
 mod ops_more;
 mod ops_mem;
+mod ops_ct;
 
 #[global_allocator]
 static GLOBAL: ops_mem::LogAlloc = ops_mem::LogAlloc;
@@ -72,6 +73,7 @@ fn dispatch(op: &str, e: &Value, ctx: &mut Ctx) -> Result<Value, String> {
         "vec" | "const" | "chk" => ops_vec::run(op, e, ctx),
         "tot" | "serde" | "ff" | "grp" => ops_more::run(op, e, ctx),
         "mem" => ops_mem::run(op, e, ctx),
+        "ct" => ops_ct::run(op, e, ctx),
         _ => ops_misc::run(op, e, ctx),
     }
 }
